@@ -86,6 +86,14 @@ pub enum Node {
   Throw,
   Interval { p: u8, take: u8 },
   Timer { d: u8 },
+  /// `create` whose producer runs the script synchronously at subscription,
+  /// every event through a fresh clone of the subscriber handle - so events
+  /// after the terminal and second terminals do reach the library (0 next,
+  /// 1 error, 2 complete)
+  Create(Vec<u8>),
+  /// from_future over a ready future / from_stream over a ready stream of n items
+  FromFuture,
+  FromStream(u8),
   /// unbounded interval (C16 producer)
   Ticker { p: u8 },
   /// from_iter over a counting iterator of n items (C16 producer)
@@ -175,7 +183,7 @@ fn edge(e: u8) -> ThrottleEdge {
 }
 
 macro_rules! build_fn {
-  ($fname:ident, $env:ty, $box:ty, $sched:expr, $subject:ty,
+  ($fname:ident, $env:ty, $box:ty, $sched:expr, $subject:ty, $subscriber:ty,
    $merge:ident, $zip:ident, $combine:ident, $wlf:ident, $take_until:ident, $skip_until:ident, $sample:ident,
    $merge_all:ident, $flatten:ident, $finalize:ident, $share:ident, $delay:ident, $observe_on:ident) => {
     pub fn $fname(node: &Node, env: &$env) -> $box {
@@ -191,6 +199,26 @@ macro_rules! build_fn {
           .on_error_map(|_| 0)
           .box_it(),
         Node::Timer { d } => observable::timer(Val::I(800), ms(*d), $sched).on_error_map(|_| 0).box_it(),
+        Node::Create(script) => {
+          let script = script.clone();
+          observable::create(move |s: $subscriber| {
+            let mut k = 0i64;
+            for ev in script {
+              let mut c = s.clone();
+              match ev % 3 {
+                0 => {
+                  k += 1;
+                  c.next(Val::I(900 + k))
+                }
+                1 => c.error(7),
+                _ => c.complete(),
+              }
+            }
+          })
+          .box_it()
+        }
+        Node::FromFuture => observable::from_future(futures::future::ready(Val::I(850)), $sched).on_error_map(|_| 0).box_it(),
+        Node::FromStream(n) => observable::from_stream(futures::stream::iter((0..*n as i64).map(|i| Val::I(860 + i))), $sched).on_error_map(|_| 0).box_it(),
         Node::Ticker { p } => {
           let c = env.counters.clone();
           c.ticker_instances.fetch_add(1, SeqCst);
@@ -329,6 +357,7 @@ build_fn!(
   BoxOp<'static, Val, E>,
   local_sched(),
   Subject<'static, Val, E>,
+  Subscriber<rxrust::observer::BoxObserver<'static, Val, E>>,
   merge,
   zip,
   combine_latest,
@@ -350,6 +379,7 @@ build_fn!(
   BoxOpThreads<Val, E>,
   shared_sched(),
   SubjectThreads<Val, E>,
+  SubscriberThreads<rxrust::observer::BoxObserverThreads<Val, E>>,
   merge_threads,
   zip_threads,
   combine_latest_threads,
@@ -404,6 +434,9 @@ impl Node {
         Node::Interval { .. } => out.push("Interval".into()),
         Node::Timer { .. } => out.push("Timer".into()),
         Node::Ticker { .. } => out.push("Ticker".into()),
+        Node::Create(_) => out.push("Create".into()),
+        Node::FromFuture => out.push("FromFuture".into()),
+        Node::FromStream(_) => out.push("FromStream".into()),
         Node::PullIter(_) => out.push("PullIter".into()),
         Node::PollStream(_) => out.push("PollStream".into()),
       }
@@ -418,7 +451,7 @@ impl Node {
     self.op_names().iter().any(|n| {
       matches!(
         n.as_str(),
-        "Interval" | "Timer" | "Ticker" | "PollStream" | "Delay" | "DelaySubscription" | "SubscribeOn" | "ObserveOn" | "Debounce" | "Throttle" | "BufferTime" | "BufferCountTime" | "SampleInterval"
+        "Interval" | "Timer" | "Ticker" | "PollStream" | "FromFuture" | "FromStream" | "Delay" | "DelaySubscription" | "SubscribeOn" | "ObserveOn" | "Debounce" | "Throttle" | "BufferTime" | "BufferCountTime" | "SampleInterval"
       )
     })
   }
@@ -434,6 +467,8 @@ impl Node {
       Node::Interval { p, take } => *p >= 1 && *take >= 1 && *take <= 20,
       Node::FromIter(n) => *n <= 20,
       Node::Ticker { p } => *p >= 1,
+      Node::Create(sc) => sc.len() <= 8,
+      Node::FromStream(n) => *n <= 20,
       Node::PullIter(n) | Node::PollStream(n) => *n <= 60,
       _ => true,
     }
@@ -540,7 +575,10 @@ pub fn gen_node(rng: &mut Rng, cfg: &GenCfg, depth: usize) -> Node {
     };
   }
   if leaf {
-    return match rng.below(12) {
+    return match rng.below(15) {
+      12 => Node::Create((0..rng.below(6)).map(|_| rng.weighted(&[5, 1, 2]) as u8).collect()),
+      13 => Node::FromFuture,
+      14 => Node::FromStream(rng.below(4) as u8),
       0..=5 => Node::Hot(rng.below(cfg.n_hot.max(1))),
       6 => Node::Of(rng.below(9) as i64),
       7 => Node::FromIter(rng.below(5) as u8),
